@@ -44,6 +44,27 @@ Cfg(r) == [method |-> r.cfg.method, estim |-> r.cfg.estim, N |-> r.cfg.N,
 HasOut(r) == "out" \in DOMAIN r
 XS(r) == [k \in 1..Len(r.x) |-> Num(r.x[k])]
 
+(***************************************************************************)
+(* Where the documented rule itself has no value (0/0) - the inputs of the *)
+(* recorded findings KF-AGRAPA-NAN, KF-KK-NAN, KF-SPRT-NAN.  A not-a-number *)
+(* at or after such a draw carries the suffix ":undefined-rule"; one that  *)
+(* appears anywhere else does not, and is never covered by those findings. *)
+(*   aGRAPA : the draws so far are all equal (zero variance) and equal the *)
+(*            null conditional mean of the next draw;                      *)
+(*   KK     : padded null conditional mean exactly 0;                      *)
+(*   SPRT   : null conditional mean exactly 0 or u.                        *)
+(***************************************************************************)
+IsAgrapa(r) == "family" \in DOMAIN r.cfg /\ r.cfg.family = "agrapa"
+RuleUndefAt(c, r, xs, sts, j) ==
+    LET s0 == IF j = 1 THEN St0 ELSE sts[j - 1]
+        m  == Mu(c, j, s0.S)
+    IN  CASE c.method = "BETTING" /\ IsAgrapa(r) -> j >= 2 /\ (\A q \in 1..(j - 1) : REq(xs[q], xs[1])) /\ REq(xs[1], m)
+          [] c.method = "KK"   -> RIsZero(RAdd(m, c.g))       \* a factor with denominator 0 (0/0, or 0 * infinity downstream)
+          [] c.method = "SPRT" -> RIsZero(m) \/ REq(m, c.u)
+          [] OTHER -> FALSE
+RuleUndefBy(c, r, xs, sts, k) == \E j \in 1..k : RuleUndefAt(c, r, xs, sts, j)
+NanTag(c, r, xs, sts, k) == IF RuleUndefBy(c, r, xs, sts, k) THEN ":undefined-rule" ELSE ""
+
 \* the alternative / bet the code applied to draw k ("undef" if not a number, "none" if the method has none)
 LoggedE(c, r, k) ==
     IF ~UsesEst(c) \/ c.method = "SPRT" THEN "none"
@@ -74,11 +95,11 @@ StepClauses(c, r, xs, sts, k) ==
         statC == IF dem /\ ~(IsNum(ps) /\ RClose(Num(ps), exp, TolP, TolP))
                  THEN {IF lst THEN "stat:last" ELSE IF RegionDecides(c, m) THEN "stat:region" ELSE "stat:product"}
                  ELSE {}
-        unitC == IF ~IsNum(ps) THEN {"unit:" \o ps}
+        unitC == IF ~IsNum(ps) THEN {"unit:" \o ps \o NanTag(c, r, xs, sts, k)}
                  ELSE IF RLt(Num(ps), Zero) THEN {"unit:neg"}
                  ELSE IF RLt(One, Num(ps)) THEN {"unit:gt1"} ELSE {}
         rangeC == IF ~UsesEst(c) \/ c.method = "SPRT" \/ ~mHalfOpen THEN {}
-                  ELSE IF e = "undef" THEN {"range:nonnum"}
+                  ELSE IF e = "undef" THEN {"range:nonnum" \o (IF RuleUndefAt(c, r, xs, sts, k) THEN ":undefined-rule" ELSE "")}
                   ELSE IF IsEtaMethod(c)
                        THEN (IF RLt(e, RNeg(TolS)) THEN {"range:eta<0"} ELSE {})
                             \cup (IF ~LeTol(e, c.u) THEN {"range:eta>u"} ELSE {})
@@ -104,7 +125,7 @@ OwnClauses(c, r) ==
              ELSE LET sts == StSeq(c, r, xs, n)
                       hs  == r.out.ph
                       allnum == \A k \in 1..n : IsNum(hs[k])
-                      pC  == IF ~IsNum(r.out.p) THEN {"unitp:" \o r.out.p}
+                      pC  == IF ~IsNum(r.out.p) THEN {"unitp:" \o r.out.p \o NanTag(c, r, xs, sts, n)}
                              ELSE IF RLt(Num(r.out.p), Zero) THEN {"unitp:neg"}
                              ELSE IF RLt(One, Num(r.out.p)) THEN {"unitp:gt1"} ELSE {}
                       ovC == IF allnum /\ IsNum(r.out.p) THEN
